@@ -97,7 +97,7 @@ Theorem C11_wu_finite_nonneg : forall c tokens, wu_ok c -> 0 <= tokens <= w_max 
 Proof. intros c tokens H Ht. destruct (allowed_le_thr c tokens H Ht) as [F [P _]]. exact (conj F P). Qed.
 
 (* below the warning line the allowed rate is exactly the threshold *)
-Theorem C11_wu_full_below_warning : forall c tokens, 0 <= tokens < w_warning c -> allowed_of c tokens = w_thr c.
+Theorem C11_wu_full_below_warning : forall c tokens, w_warning c < two63 -> 0 <= tokens < w_warning c -> allowed_of c tokens = w_thr c.
 Proof. exact allowed_full. Qed.
 
 (* cold state (bucket full, which is what an idle period produces): the allowed rate is
@@ -119,7 +119,7 @@ Proof. exact allowed_ge_cold. Qed.
 
 (* the bucket stays within [0, maxToken] *)
 Theorem C11_wu_stored_bounds : forall c st now q,
-  0 <= w_max c -> 0 <= stored st <= w_max c -> 0 <= consumed q ->
+  0 <= w_max c < two63 -> 0 <= stored st <= w_max c -> 0 <= consumed q ->
   in_i64 (cool_down c st (now - now mod 1000) q - consumed q) ->
   0 <= stored (sync_token c st now q) <= w_max c.
 Proof.
@@ -195,12 +195,16 @@ Theorem C11_wu_cold_start_refuted : exists T period cf,
   (T <=? a)%float = true /\ (a <=? T / f_of_u64 cf)%float = false.
 Proof. exists 1%float, 1, 2. exact no_cold_phase. Qed.
 
-(* C11-F4: a NaN threshold is a valid rule *)
-Theorem C11_wu_finite_nonneg_refuted : exists T period cf,
-  wvalid T period cf = true /\
-  is_nan (snd (calc (mk_wcfg T period cf) winit t_start)) = true /\
-  admitted_count (wrun (mk_wcfg T period cf) winit (repeat (t_start, 1) 30)) = 30.
-Proof. exists nan, 10, 3. exact nan_threshold. Qed.
+(* former C11-F4: a NaN threshold is rejected since /repo 1e1f6ae; +Inf is still valid and its effective
+   threshold is MaxFloat64 — finite and non-negative, the rule is a configured "unlimited" *)
+Theorem C11_wu_nan_invalid : forall period cf, wvalid nan period cf = false.
+Proof. exact nan_threshold_invalid. Qed.
+
+Theorem C11_wu_inf_threshold_finite :
+  wvalid infinity 10 3 = true /\
+  (snd (calc (mk_wcfg infinity 10 3) winit t_start) =? fmax)%float = true /\
+  admitted_count (wrun (mk_wcfg infinity 10 3) winit (repeat (t_start, 1) 30)) = 30.
+Proof. exact inf_threshold. Qed.
 
 Print Assumptions C11_mem_low.
 Print Assumptions C11_mem_not_retrieved.
@@ -227,4 +231,5 @@ Print Assumptions C11_wu_finite_nonneg_twin_partial.
 Print Assumptions C11_wu_not_starved_refuted.
 Print Assumptions C11_wu_not_starved_eq_refuted.
 Print Assumptions C11_wu_cold_start_refuted.
-Print Assumptions C11_wu_finite_nonneg_refuted.
+Print Assumptions C11_wu_nan_invalid.
+Print Assumptions C11_wu_inf_threshold_finite.
